@@ -427,6 +427,155 @@ func gen() ([]byte, error) {
 	for _, t := range rt {
 		rts = append(rts, tx.CoqString(t))
 	}
-	b.WriteString("Definition c12_randid : list string := [" + strings.Join(rts, "; ") + "].\n")
+	b.WriteString("Definition c12_randid : list string := [" + strings.Join(rts, "; ") + "].\n\n")
+
+	// pkg/plugin/server/manager.go Manager.Login: what is handed to the plugins and what replaces the content.
+	// (The model: the run id RegisterControl acts on is the one the client sent, plugins or not.)
+	plgF, err := parser.ParseFile(fset, filepath.Join(tx.Repo, "pkg/plugin/server/manager.go"), nil, 0)
+	if err != nil {
+		return nil, err
+	}
+	var pt []string
+	if lg := findMethod(plgF, "Manager", "Login"); lg != nil {
+		for _, st := range lg.Body.List {
+			fs, ok := st.(*ast.RangeStmt)
+			if !ok {
+				continue
+			}
+			for _, bs := range fs.Body.List {
+				switch y := bs.(type) {
+				case *ast.AssignStmt:
+					if c, ok := y.Rhs[0].(*ast.CallExpr); ok && len(y.Rhs) == 1 {
+						if sel, ok := c.Fun.(*ast.SelectorExpr); ok && sel.Sel.Name == "Handle" && len(c.Args) == 3 {
+							pt = append(pt, "HandleArg:"+show(c.Args[2]))
+							continue
+						}
+					}
+					pt = append(pt, "Unknown:"+show(y))
+				case *ast.IfStmt:
+					switch show(y.Cond) {
+					case "err != nil", "res.Reject":
+						pt = append(pt, "Refuse")
+					case "!res.Unchange":
+						if len(y.Body.List) == 1 && show(y.Body.List[0]) == "content = retContent.(*LoginContent)" {
+							pt = append(pt, "TakePluginContent")
+						} else {
+							pt = append(pt, "Unknown:"+show(y))
+						}
+					default:
+						pt = append(pt, "Unknown:"+show(y))
+					}
+				default:
+					pt = append(pt, "Unknown:"+show(bs))
+				}
+			}
+		}
+	}
+	var pts []string
+	for _, t := range pt {
+		pts = append(pts, tx.CoqString(t))
+	}
+	b.WriteString("Definition c12_plugin_login : list string := [" + strings.Join(pts, "; ") + "].\n\n")
+
+	// pkg/msg/handler.go: who closes the dispatcher's doneCh (transitively inside the file), and the shape of
+	// the read loop: ReadMsg; on error close(doneCh) and return; otherwise call the handler in place
+	hdlF, err := parser.ParseFile(fset, filepath.Join(tx.Repo, "pkg/msg/handler.go"), nil, 0)
+	if err != nil {
+		return nil, err
+	}
+	closes := map[string]bool{}
+	calls := map[string][]string{}
+	for _, d := range hdlF.Decls {
+		fd, ok := d.(*ast.FuncDecl)
+		if !ok || fd.Body == nil || fd.Recv == nil {
+			continue
+		}
+		ast.Inspect(fd.Body, func(n ast.Node) bool {
+			if c, ok := n.(*ast.CallExpr); ok {
+				if id, ok := c.Fun.(*ast.Ident); ok && id.Name == "close" && len(c.Args) == 1 && strings.HasSuffix(show(c.Args[0]), ".doneCh") {
+					closes[fd.Name.Name] = true
+				}
+				if sel, ok := c.Fun.(*ast.SelectorExpr); ok {
+					if id, ok := sel.X.(*ast.Ident); ok && id.Name == "d" {
+						calls[fd.Name.Name] = append(calls[fd.Name.Name], sel.Sel.Name)
+					}
+				}
+			}
+			return true
+		})
+	}
+	for changed := true; changed; {
+		changed = false
+		for f, cs := range calls {
+			for _, c := range cs {
+				if closes[c] && !closes[f] {
+					closes[f] = true
+					changed = true
+				}
+			}
+		}
+	}
+	var closers []string
+	for _, d := range hdlF.Decls { // source order; helper methods that only exist to close are reported too
+		if fd, ok := d.(*ast.FuncDecl); ok && closes[fd.Name.Name] {
+			closers = append(closers, tx.CoqString(fd.Name.Name))
+		}
+	}
+	b.WriteString("Definition c12_done_closers : list string := [" + strings.Join(closers, "; ") + "].\n")
+	var rl []string
+	if fd := findMethod(hdlF, "Dispatcher", "readLoop"); fd != nil && len(fd.Body.List) == 1 {
+		if loop, ok := fd.Body.List[0].(*ast.ForStmt); ok && loop.Cond == nil {
+			for _, st := range loop.Body.List {
+				switch y := st.(type) {
+				case *ast.AssignStmt:
+					if strings.HasPrefix(show(y.Rhs[0]), "ReadMsg(") {
+						rl = append(rl, "ReadMsg")
+					} else {
+						rl = append(rl, "Unknown:"+show(y))
+					}
+				case *ast.IfStmt:
+					if show(y.Cond) == "err != nil" && len(y.Body.List) == 2 && strings.HasPrefix(show(y.Body.List[0]), "close(") && show(y.Body.List[1]) == "return" {
+						rl = append(rl, "IfErrCloseDoneReturn")
+					} else if strings.Contains(show(y), "handler(m)") && !strings.Contains(show(y), "go ") {
+						rl = append(rl, "CallHandlerInPlace")
+					} else {
+						rl = append(rl, "Unknown:"+show(y))
+					}
+				default:
+					rl = append(rl, "Unknown:"+show(st))
+				}
+			}
+		}
+	}
+	var rls []string
+	for _, t := range rl {
+		rls = append(rls, tx.CoqString(t))
+	}
+	b.WriteString("Definition c12_readloop : list string := [" + strings.Join(rls, "; ") + "].\n\n")
+
+	// server/proxy/http.go HTTPProxy.Run: a group membership is given back (UnRegister by proxy NAME) only by a
+	// proxy whose Register succeeded: the closure is appended after the Register call, in both branches
+	httpF, err := parser.ParseFile(fset, filepath.Join(tx.Repo, "server/proxy/http.go"), nil, 0)
+	if err != nil {
+		return nil, err
+	}
+	var ho []string
+	if run := findMethod(httpF, "HTTPProxy", "Run"); run != nil {
+		ast.Inspect(run.Body, func(n ast.Node) bool {
+			c, ok := n.(*ast.CallExpr)
+			if !ok {
+				return true
+			}
+			if sel, ok := c.Fun.(*ast.SelectorExpr); ok && sel.Sel.Name == "Register" && strings.HasSuffix(show(sel.X), "HTTPGroupCtl") {
+				ho = append(ho, tx.CoqString("Register"))
+			}
+			if id, ok := c.Fun.(*ast.Ident); ok && id.Name == "append" && strings.Contains(show(c), "HTTPGroupCtl.UnRegister(") {
+				ho = append(ho, tx.CoqString("AppendUnRegister"))
+				return false
+			}
+			return true
+		})
+	}
+	b.WriteString("Definition c12_http_group_order : list string := [" + strings.Join(ho, "; ") + "].\n")
 	return b.Bytes(), nil
 }
